@@ -34,7 +34,7 @@ PROBES = [
     "probe.trunc_in_record_header", "probe.trunc_in_record_data", "probe.trunc_on_boundary", "probe.corrupt_caplen",
     "probe.bad_magic", "probe.read_past_end", "probe.read_all_n_gt_remaining", "probe.read_all_n_zero", "probe.zero_records",
     "probe.nanosecond_magic", "probe.written_reread", "probe.written_stdout", "probe.record_gt_65535", "probe.empty_payload",
-    "probe.drain_loop", "probe.long_file", "probe.packet_written_twice",
+    "probe.drain_loop", "probe.long_file", "probe.packet_written_twice", "probe.read_all_huge_n",
 ]
 
 
@@ -76,7 +76,9 @@ def _gen_episode(rng, allow_stdin, deep=False):
         damage = {"kind": "trunc", "at": min(at, total)}
     elif d == "caplen" and recs:
         j = rng.below(len(recs))
-        damage = {"kind": "caplen", "rec": j, "over": rng.choice([1, 2, 100, 70000, 0x7FFFFFFF, 0xFFFFFFFF - hdr["snaplen"]])}
+        overs = [o for o in (1, 2, 100, 70000, 0x7FFFFFFF, 0xFFFFFFFF - hdr["snaplen"]) if 0 < o and hdr["snaplen"] + o <= 0xFFFFFFFF]
+        if overs:   # (with snaplen 0xFFFFFFFF no caplen can exceed it: nothing to corrupt that way)
+            damage = {"kind": "caplen", "rec": j, "over": rng.choice(overs)}
     elif d == "badmagic":
         damage = {"kind": "badmagic", "magic": rng.choice([0xD4C3B2A1, 0x4D3CB2A1, 0x0A0D0D0A, 0, 0xA1B2C3D5, 0xFFFFFFFF])}
     elif d == "shorthdr":
@@ -103,7 +105,7 @@ def _gen_episode(rng, allow_stdin, deep=False):
         else:
             left = max(1, ncalls - j)
             n = rng.weighted([(6, 0), (20, 1), (25, rng.range(2, 5)), (10, max(0, remaining - 1)), (10, remaining), (10, remaining + rng.range(1, 3)),
-                              (19, max(1, remaining // left))])
+                              (19, max(1, remaining // left)), (4, rng.choice([10 ** 6, 2 ** 31, 2 ** 40, 2 ** 62, 2 ** 63 - 1]))])
             calls.append(["alln", n])
             remaining = max(0, remaining - n)
     if long_file:
@@ -530,6 +532,8 @@ def check(model, results):
             n = None if call[0] == "all" else call[1]
             if n == 0:
                 inc("probe.read_all_n_zero")
+            if n is not None and n >= 10 ** 6:
+                inc("probe.read_all_huge_n")
             if n is not None and n > len(rem):
                 inc("probe.read_all_n_gt_remaining")
             take = rem if n is None else rem[:n]
